@@ -1,5 +1,13 @@
-"""C05 — broker-family check (see checks/brokerfam.py and DESIGN.md §4 C05)."""
+"""C05 — broker-family check (see checks/brokerfam.py and DESIGN.md §4 C05) plus the client-side
+end-to-end credit correspondence: harness `chanflow` (real Clients + Broker + Sender/Receiver under
+random schedules on one channel) against the extracted model of coq/Proto/Credit.v."""
+import json
+import os
+import shutil
+
 from checks import brokerfam
+from vlib import core
+from vlib.core import BuildLock
 
 PROP = "C05"
 PINS = {
@@ -8,13 +16,267 @@ PINS = {
     "C05_low_water_mark": "LOW_CAPACITY = 4",
     "C05_within_credit_never_cut": "exists ch' add, chan_send_item ch c = ItemForward ch' ro add",
     "C05_claim_once": "exists r', chan_claim ch' c2 e = ClaimErr r' /\\ r' = CLAlready",
+    # end to end (Proto/Credit.v)
+    "C05_e2e_never_cut": "forall cS cR cap sch, 1 <= cap -> cap <= 4294967295 -> let w := wrun cS cR (winit cS cR cap) sch in "
+                         "f_cut w = false /\\ f_ovf w = false /\\ f_panic w = None /\\ f_unexp w = false",
+    "C05_e2e_in_order_exactly_once": "(exists rest, sd_sent w = rv_got w ++ rest) /\\ (rv_open w = true -> sd_sent w = "
+                                     "rv_got w ++ rv_queue w ++ br_items (q_br w) ++ sb_items (q_sb w)) /\\ "
+                                     "(rv_open w = true -> quiet w -> rv_got w = sd_sent w)",
+    "C05_e2e_conservation": "(sd_open w = true -> sd_cap w + added_sum (sd_added w) + len (sb_items (q_sb w)) + "
+                            "bs_adds (q_bs w) = sc) /\\ sc <= rc /\\ (sc <= 4 -> sc = rc)",
+    "C05_e2e_poll_closed_keeps_credit": "sd_cap w' + added_sum (sd_added w') = sd_cap w + added_sum (sd_added w)",
+    "C05_e2e_progress": "exists sch, rv_got (wrun cS cR w sch) = sd_sent w ++ [v]",
+    "C05_e2e_no_deadlock": "sd_open w = true -> rv_open w = true -> quiet w -> send_ready w = RdOk",
+    "C05_client_low_water_mark": "CLIENT_LOW = 4",
 }
-MIXES = ["channels","all","channels","channels"]
+MIXES = ["channels", "all", "channels", "channels"]
+
+# chanflow: (shards, cases per shard at 120 steps); shard i runs schedules of at most STEPS[i % 4]
+# steps (long schedules reach the first grant of the large capacities) with proportionally fewer cases
+CF_SIZES = {"quick": (16, 800), "thorough": (16, 64000)}
+CF_STEPS = [120, 120, 300, 800]
+CF_ROUND = 16000   # cases per harness invocation
+
+CF_ASSUME = [
+    "modelled, not verified (client side): aldrin/src/low_level/channel/{established,raw}.rs Sender/Receiver and "
+    "aldrin/src/client.rs msg_item_received / msg_add_channel_capacity / msg_channel_end_closed / "
+    "msg_close_channel_end_reply as coq/Proto/Credit.v: one established channel, four FIFO links, the broker's entry "
+    "driven through chan_* of Broker/Model.v; handle queue + Buffered + transport merged into one FIFO per direction; "
+    "AddChannelCapacity absorbed into Sender.capacity when the client handles it (capacity_added is drained before "
+    "capacity is read)",
+    "task scheduling and waker delivery inside one step are not modelled: the chanflow executor runs every task to "
+    "quiescence after each schedule step; the schedule (which link delivers next, which application acts) is the "
+    "quantified part",
+]
+
+
+def _cf_build(o):
+    ok = True
+    with BuildLock():
+        okc, outc, _ = core.cargo_build(["chanflow"])
+        if not okc:
+            o.obligation_broken("cargo build of the chanflow harness against /repo", outc)
+            ok = False
+        core.ensure_makefile()
+        okb, outb, _ = core.coq_build(["Proto/Credit.v"])
+        if not okb:
+            o.obligation_broken("coq build of the executable credit model", outb)
+            return False
+        okd, outd = core.build_driver("ExtractCredit.v", "credit_model", "credit_driver.ml", "credit_driver")
+        if not okd:
+            o.obligation_broken("extraction/compilation of the credit model driver", outd)
+            ok = False
+    return ok
+
+
+def _cf_workdir(name):
+    d = os.path.join(core.WORK, PROP, name)
+    shutil.rmtree(d, ignore_errors=True)
+    os.makedirs(d, exist_ok=True)
+    return d
+
+
+def _case_of_line(cases, idx):
+    """the `new <seed> <cap> <same>` line that opens the case containing line idx, and the steps up to idx"""
+    j = idx
+    while j >= 0 and not cases[j].startswith("new "):
+        j -= 1
+    if j < 0:
+        return None, []
+    return cases[j].split(), cases[j:idx + 1]
+
+
+def _merge(tot, s):
+    for k, v in s.items():
+        if isinstance(v, dict):
+            t = tot.setdefault(k, {})
+            for kk, vv in v.items():
+                t[kk] = t.get(kk, 0) + vv
+        elif k == "max_in_flight":
+            tot[k] = max(tot.get(k, 0), v)
+        elif k in ("seed", "maxsteps"):
+            continue
+        elif isinstance(v, (int, float)):
+            tot[k] = tot.get(k, 0) + v
+
+
+def chanflow(o, tier, seed):
+    """extra correspondence step of C05: the end-to-end credit model against the real clients"""
+    o.assumptions += CF_ASSUME
+    o.coverage["trusted_base"] = o.assumptions
+    if not _cf_build(o):
+        return
+    shards, per = CF_SIZES[tier]
+    dirs, cmds, steps_of = [], [], {}
+    chan = core.harness_bin("chanflow")
+    drv = os.path.join(core.BUILD, "credit_driver")
+    for i in range(shards):
+        ms = CF_STEPS[i % len(CF_STEPS)]
+        n = max(50, per * 120 // ms)
+        rounds = (n + CF_ROUND - 1) // CF_ROUND
+        base = _cf_workdir(f"cf{i}")
+        parts = []
+        for r in range(rounds):
+            d = os.path.join(base, f"r{r}")
+            os.makedirs(d)
+            dirs.append(d)
+            steps_of[d] = ms
+            k = min(CF_ROUND, n - r * CF_ROUND)
+            # identical outputs are deleted at once (a thorough run writes several GB otherwise)
+            parts.append(f"VERIF_SEED={(seed * 1000 + i) * 100 + r} {chan} gen {d} {k} {ms} && {drv} {d}/cases.txt {d}/model.txt"
+                         f" && head -n 40 {d}/cases.txt > {d}/sample_cases.txt && head -n 40 {d}/impl.txt > {d}/sample_impl.txt"
+                         f" && wc -l < {d}/cases.txt > {d}/lines.txt"
+                         f" && if cmp -s {d}/impl.txt {d}/model.txt; then rm -f {d}/impl.txt {d}/model.txt {d}/cases.txt; "
+                         f"else touch {d}/DIFFERS; fi")
+        cmds.append(" && ".join(parts))
+    res = core.parallel(cmds, timeout=3000)
+    for (rc, out), i in zip(res, range(shards)):
+        if rc != 0:
+            o.obligation_broken(f"chanflow harness/driver run of shard {i} (exit {rc})", out)
+    tot = {}
+    compared = 0
+    disagreements = []
+    monitor = []
+    sample = []
+    for d in dirs:
+        if not os.path.exists(f"{d}/lines.txt"):
+            continue
+        if os.path.exists(f"{d}/DIFFERS"):
+            n, diffs = core.diff_lines(f"{d}/cases.txt", f"{d}/impl.txt", f"{d}/model.txt", skip=lambda c, i: False)
+            compared += n
+            with open(f"{d}/cases.txt", encoding="utf-8", errors="replace") as f:
+                cases = f.read().split("\n")
+            for df in diffs[:5]:
+                if df is None:
+                    continue
+                hdr, prefix = _case_of_line(cases, df["line"]) if df["line"] >= 0 else (None, [])
+                df = dict(df)
+                if hdr:
+                    df.update({"chanflow_case": int(hdr[1]), "cap": int(hdr[2]), "same": int(hdr[3]),
+                               "maxsteps": steps_of[d], "schedule_prefix": prefix[-200:]})
+                disagreements.append(df)
+        else:
+            compared += int(open(f"{d}/lines.txt").read().strip() or 0)
+        try:
+            with open(f"{d}/monitor.txt", encoding="utf-8", errors="replace") as f:
+                for line in f:
+                    p = line.rstrip("\n").split("\t")
+                    if len(p) >= 3:
+                        w = p[1].split()
+                        monitor.append({"class": p[0], "chanflow_case": int(w[0]), "cap": int(w[1]), "same": int(w[2]),
+                                        "maxsteps": int(w[3]), "detail": p[2]})
+        except OSError:
+            pass
+        try:
+            _merge(tot, json.load(open(f"{d}/stats.json")))
+        except Exception as ex:  # noqa: BLE001
+            o.obligation_broken(f"chanflow stats in {d}", str(ex))
+        if not sample:
+            with open(f"{d}/sample_cases.txt", encoding="utf-8", errors="replace") as f:
+                c = f.read().split("\n")[:40]
+            with open(f"{d}/sample_impl.txt", encoding="utf-8", errors="replace") as f:
+                im = f.read().split("\n")[:40]
+            sample = [f"{a}  =>  {b}" for a, b in zip(c, im) if a]
+    for m in monitor[:50]:
+        o.violation(f"C05-e2e {m['class']}: {m['detail']}"[:600],
+                    {"input": {"chanflow_case": m["chanflow_case"], "maxsteps": m["maxsteps"], "cap": m["cap"],
+                               "same": m["same"]},
+                     "reproduce": f"target/debug/chanflow one {m['chanflow_case']} {m['maxsteps']}"})
+    if disagreements:
+        o.obligation_broken("chanflow correspondence: the real Sender/Receiver/Client/Broker and coq/Proto/Credit.v "
+                            "disagree on a schedule", json.dumps(disagreements[:5], indent=1))
+        if not monitor:
+            # a disagreement is a concrete schedule: keep it as a replayable input
+            d0 = disagreements[0]
+            if "chanflow_case" in d0:
+                o.violation("C05-e2e model-disagreement: " + d0.get("case", "?"),
+                            {"input": {"chanflow_case": d0["chanflow_case"], "maxsteps": d0["maxsteps"],
+                                       "cap": d0["cap"], "same": d0["same"]},
+                             "line": d0["line"], "impl": d0["impl"], "model": d0["model"],
+                             "reproduce": f"target/debug/chanflow one {d0['chanflow_case']} {d0['maxsteps']}"})
+    o.coverage["chanflow"] = {
+        "rule": "one case = one established channel (capacity, one or two clients, transport kind, setup order from the "
+                "case seed) under a random schedule of send / recv / closeS / closeR / dropS / dropR / brokerS / brokerR / "
+                "clientS / clientR followed by a drain; after EVERY step the observation (sent|pend|err, item:v|end|pend), "
+                "the sender's readiness, the content of the four held links (SendItem/AddChannelCapacity values, "
+                "ChannelEndClosed, CloseChannelEndReply results) and the two close futures are compared with the "
+                "extracted model; evaluations = compared lines (steps); distinct = distinct (capacity, same, sequence of "
+                "step kinds) signatures",
+        "evaluations": compared,
+        "cases": tot.get("cases", 0),
+        "distinct_nontrivial": tot.get("distinct", 0),
+        "disagreements": len(disagreements),
+        "monitor_failures": len(monitor),
+        "aborted_cases": tot.get("aborted_cases", 0),
+        "ops": tot.get("ops", {}),
+        "capacities": tot.get("caps", {}),
+        "same_client": tot.get("same", {}),
+        "transport": tot.get("transport", {}),
+        "setup_order": tot.get("setup", {}),
+        "moods": tot.get("moods", {}),
+        "closes": tot.get("closes", {}),
+        "items_sent": tot.get("items_sent", 0),
+        "items_received": tot.get("items_received", 0),
+        "grants_seen": tot.get("grants_seen", 0),
+        "grant_values": tot.get("grant_values", {}),
+        "broker_replenish_seen": tot.get("broker_replenish_seen", 0),
+        "max_in_flight": tot.get("max_in_flight", 0),
+        "shards_by_max_schedule_length": {str(ms): sum(1 for i in range(shards) if CF_STEPS[i % len(CF_STEPS)] == ms)
+                                          for ms in sorted(set(CF_STEPS))},
+        "probe_absorbed": tot.get("probe_absorbed", 0),
+        "sample": sample,
+        "monitors": "ORDER, COMPLETE, CUT, CLOSE-ERR, CAPACITY, STALL, STARVE, PANIC, RUN (client.run() result), HANG, BUDGET",
+    }
+    if isinstance(o.coverage.get("evaluations"), int):
+        o.coverage["evaluations_broker"] = o.coverage["evaluations"]
+        o.coverage["evaluations"] += compared
+    else:
+        o.coverage["evaluations"] = compared
 
 
 def run(tier, seed):
-    return brokerfam.run_check(PROP, "Props/C05.v", PINS, MIXES, tier, seed)
+    return brokerfam.run_check(PROP, "Props/C05.v", PINS, MIXES, tier, seed, extra=chanflow)
 
 
 def replay(path):
-    return brokerfam.replay(PROP, path)
+    r = json.load(open(path))
+    inp = r.get("input") if isinstance(r.get("input"), dict) else None
+    if not inp or "chanflow_case" not in inp:
+        return brokerfam.replay(PROP, path)
+    o = core.Outcome(PROP, "replay", 0)
+    if not _cf_build(o):
+        print("BUILD FAILED: " + "; ".join(str(b)[:2000] for b in o.broken))
+        return 2
+    cs, ms = int(inp["chanflow_case"]), int(inp["maxsteps"])
+    print("recorded violation:", r.get("what"))
+    rc, out, _ = core.sh(f"{core.harness_bin('chanflow')} one {cs} {ms}", timeout=300)
+    if rc != 0:
+        print(f"REPLAY MACHINERY FAILED (exit {rc}): {out[:2000]}")
+        return 2
+    d = _cf_workdir("replay")
+    cases, impl, mon = [], [], []
+    for line in out.splitlines():
+        if line.startswith("# MONITOR"):
+            mon.append(line)
+        if line.startswith("#") or "  =>  " not in line:
+            continue
+        c, i = line.split("  =>  ", 1)
+        cases.append(c)
+        impl.append(i)
+    open(f"{d}/cases.txt", "w").write("\n".join(cases) + "\n")
+    open(f"{d}/impl.txt", "w").write("\n".join(impl) + "\n")
+    rc, outd, _ = core.sh(f"{os.path.join(core.BUILD, 'credit_driver')} {d}/cases.txt {d}/model.txt", timeout=300)
+    if rc != 0:
+        print(f"REPLAY MACHINERY FAILED (driver exit {rc}): {outd[:2000]}")
+        return 2
+    print(out[-6000:])
+    n, diffs = core.diff_lines(f"{d}/cases.txt", f"{d}/impl.txt", f"{d}/model.txt", skip=lambda c, i: False)
+    for df in diffs[:5]:
+        if df:
+            print(f"DISAGREE line {df['line']} step `{df['case']}`\n  impl : {df['impl']}\n  model: {df['model']}")
+    if mon or diffs:
+        print(f"REPRODUCED: {len(mon)} monitor verdict(s), {len([x for x in diffs if x])} model disagreement(s) "
+              f"in chanflow case {cs} (max {ms} steps)")
+        return 1
+    print(f"the recorded violation did NOT reproduce: chanflow case {cs} is clean and agrees with the model on {n} steps")
+    return 0
